@@ -172,6 +172,15 @@ def run(tier, seed):
             tasks.append((ddl, {}, {}))
             tasks.append((ddl, {"normalize_names": True}, {}))
             meta.append((pid, "keyword", form, ext, ddl))
+    # identifiers that merely START with a keyword (ARRAY_IX, Table_x1, index_x1), in every naming position
+    for pid, tpl, ext in POSITIONS:
+        for k in T.KEYWORDS:
+            fs = [k.lower() + "_x1", k.capitalize() + "_x1", k.upper() + "_X1"]
+            for form in (fs if thorough or k == "ARRAY" else [rnd.choice(fs)]):
+                ddl = tpl.replace("{X}", form) + "\n"
+                tasks.append((ddl, {}, {}))
+                tasks.append((ddl, {"normalize_names": True}, {}))
+                meta.append((pid, "keyword_prefix" + (":array_type_position" if pid == "inline_key_name" and form.startswith("ARRAY") else ""), form, ext, ddl))
     for pid, tpl, ext in KW_POS_ALTER:
         for k in kws:
             form = k.lower()
@@ -181,7 +190,7 @@ def run(tier, seed):
             meta.append((pid, "keyword_in_alter", form, (lambda r, e=ext, f=form: (e(r) if e(r) != "{X}" else f)), ddl))
     outs, nu = C.parse_many(tasks)
     for i, (pid, fid, form, ext, ddl) in enumerate(meta):
-        tags = {"kw_in_alter"} if fid == "keyword_in_alter" else set()
+        tags = {"kw_in_alter"} if fid == "keyword_in_alter" else ({"array_prefix_type_position"} if fid.endswith(":array_type_position") else set())
         of, on = outs[2 * i], outs[2 * i + 1]
         case = {"position": pid, "form": fid, "identifier": form, "ddl": ddl}
         if of[0] != "ok":
